@@ -63,8 +63,14 @@ class BodyGen:
     def small(self):
         """small positive operand for shifts / divisors"""
         r = self.r
-        if r.random() < 0.25 and self.consts:
+        c = r.random()
+        if c < 0.25 and self.consts:
             return r.choice(sorted(self.consts))
+        if c < 0.4:
+            # differs between the copies of a body: 1, 3, 5 or 7 depending on the address
+            self.feat.add("dot")
+            self.feat.add("dot-rhs")
+            return "<. - bgn & 6 | 1>"
         return self.lit(r.choice([1, 2, 3, 4, 8]))
 
     def group(self, inner):
